@@ -77,6 +77,13 @@ def rho_adversarial3() -> Renaming:
                      "e", "a_e", "f", "a_f", "g", "a_g", "h", "a_h", "i", "a_i", "j", "a_j", "k", "a_k", "l", "a_l"])
 
 
+def rho_adversarial4() -> Renaming:
+    # file names that are no identifiers: characters that sort BEFORE the dot ('+' '-'), so that a sibling
+    # 'p.api-x' stands between 'p.api' and 'p.api.v1' in every sorted listing of the names
+    return Renaming(["p", "api", "api-x", "api+", "b", "b-", "b-1", "api-x-y", "c", "c+d", "c-", "api--", "b+b", "d", "d-d",
+                     "d-", "e", "e-1", "e+", "f", "f-", "g", "g-g", "h", "h-", "i", "i-", "j", "j-", "k", "k-"])
+
+
 def rho_case() -> Renaming:
     # names that differ only in the case of their letters (a / A / aA ...): identity is case-sensitive
     return Renaming(["a", "A", "aA", "Aa", "b", "B", "ab", "aB", "Ab", "AB", "c", "C", "m", "M", "mod", "Mod", "MOD", "x",
